@@ -63,3 +63,11 @@ spec fn container_expect(t: ast::Type) -> Seq<DP> {
         _ => Seq::<DP>::empty(),
     }
 }
+
+// every type node of the file, at any depth, contributes its container_expect, in traversal order
+spec fn containers_expect(ts: Seq<ast::Type>, n: int) -> Seq<DP>
+    decreases n
+{
+    if n <= 0 { Seq::<DP>::empty() } else { containers_expect(ts, n - 1) + container_expect(ts[n - 1]) }
+}
+spec fn all_arity_ok(ts: Seq<ast::Type>) -> bool { forall |i: int| 0 <= i < ts.len() ==> arity_ok(#[trigger] ts[i]) }
